@@ -170,7 +170,8 @@ theorem comment32 (U : UCls) (c n : Bool) (F : Nat) (hF : src.size < F) (st : St
           rw [hloff] at hdec1
           rw [hdec1, ← hdec2]
           exact hnext rfl
-        exact commentXG_eq_tpl F look.1 hinv hf h1 hch hspanOK
+        have hb' : byteAt src (look.1.off - 1) = 0x2F := by rw [hpos, hb, hc]; rfl
+        exact commentXG_eq_tpl F look.1 hinv hf h1 hch hb' hspanOK
     generalize (if sharp = true then scanSharpCommentTpl src F look.1 else scanCommentTpl src F look.1) = cT at heq ⊢
     generalize scanCommentXG .xgo src F look.1 = cX at heq hokX ⊢
     rw [← heq.1, ← heq.2]
